@@ -149,16 +149,56 @@ def r1(ctx):
                   f"writer dispatch is not (array -> create_dataset(key, data=val), scalar -> attrs): lossy={lossy}")
     # reader: attrs.items() and datasets [:] both read, for shared and private
     def reader_ok(grp):
-        upd = [c for c in calls(lf.node, tail="update") if U(c.args[0]).replace(" ", "") == f"{grp}.attrs.items()"]
-        dsl = [n for n in walk_own(lf.node) if isinstance(n, ast.For) and U(n.iter).replace(" ", "") == f"{grp}.keys()"]
-        good = len(upd) == 1 and len(dsl) == 1
-        if good:
-            st = [x for x in dsl[0].body if isinstance(x, ast.Assign)]
-            good = len(st) == 1 and U(st[0].value).replace(" ", "") in (f"{grp}[{U(dsl[0].target)}][:]", f"{grp}[{U(dsl[0].target)}][()]") \
-                and U(st[0].targets[0].slice) == U(dsl[0].target)
-            tgt_dict = U(st[0].targets[0].value) if good else None
-            good = good and U(upd[0].func.value) == tgt_dict
-        return good
+        """some dict receives both the attributes of group `grp` and every dataset of it read whole - whichever of the idioms
+        (update / dict(...) / comprehension / per-key store loop) builds it"""
+        def attrs_src(e):
+            t = U(e).replace(" ", "")
+            return t in (f"{grp}.attrs.items()", f"{grp}.attrs", f"dict({grp}.attrs.items())", f"dict({grp}.attrs)")
+
+        def datasets_src(e):
+            """(key var, iter ok, value whole) for a comprehension / generator of (k, grp[k][:]) pairs or {k: grp[k][:]}"""
+            if isinstance(e, (ast.GeneratorExp, ast.ListComp)) and len(e.generators) == 1 and not e.generators[0].ifs and isinstance(e.elt, ast.Tuple) and len(e.elt.elts) == 2:
+                k, v = e.elt.elts
+            elif isinstance(e, ast.DictComp) and len(e.generators) == 1 and not e.generators[0].ifs:
+                k, v = e.key, e.value
+            else:
+                return False
+            g_ = e.generators[0]
+            kv = U(g_.target)
+            return U(g_.iter).replace(" ", "") in (f"{grp}.keys()", grp) and U(k) == kv and U(v).replace(" ", "") in (f"{grp}[{kv}][:]", f"{grp}[{kv}][()]")
+        got = {}
+        for n in walk_own(lf.node):
+            # d = dict(attrs) / {**..}
+            if isinstance(n, ast.Assign) and len(n.targets) == 1 and isinstance(n.targets[0], ast.Name):
+                d = n.targets[0].id
+                v = n.value
+                if attrs_src(v) or (isinstance(v, ast.Call) and U(v.func) == "dict" and len(v.args) == 1 and attrs_src(v.args[0])):
+                    got.setdefault(d, set()).add("attrs")
+                if isinstance(v, ast.Call) and U(v.func) == "dict" and len(v.args) == 1 and datasets_src(v.args[0]):
+                    got.setdefault(d, set()).add("datasets")
+                if datasets_src(v):
+                    got.setdefault(d, set()).add("datasets")
+                if isinstance(v, ast.Dict) and None in v.keys:
+                    for kk, vv in zip(v.keys, v.values):
+                        if kk is None and (attrs_src(vv) or (isinstance(vv, ast.Call) and U(vv.func) == "dict" and vv.args and attrs_src(vv.args[0]))):
+                            got.setdefault(d, set()).add("attrs")
+                        if kk is None and datasets_src(vv):
+                            got.setdefault(d, set()).add("datasets")
+            # d.update(...)
+            if isinstance(n, ast.Call) and isinstance(n.func, ast.Attribute) and n.func.attr == "update" and isinstance(n.func.value, ast.Name) and len(n.args) == 1:
+                d = n.func.value.id
+                if attrs_src(n.args[0]):
+                    got.setdefault(d, set()).add("attrs")
+                if datasets_src(n.args[0]):
+                    got.setdefault(d, set()).add("datasets")
+            # for k in grp.keys(): d[k] = grp[k][:]
+            if isinstance(n, ast.For) and U(n.iter).replace(" ", "") in (f"{grp}.keys()", grp) and isinstance(n.target, ast.Name):
+                kv = n.target.id
+                for x in n.body:
+                    if isinstance(x, ast.Assign) and len(x.targets) == 1 and isinstance(x.targets[0], ast.Subscript) and isinstance(x.targets[0].value, ast.Name) \
+                            and U(x.targets[0].slice) == kv and U(x.value).replace(" ", "") in (f"{grp}[{kv}][:]", f"{grp}[{kv}][()]"):
+                        got.setdefault(x.targets[0].value.id, set()).add("datasets")
+        return any(v == {"attrs", "datasets"} for v in got.values())
     shared_grp = [k for k, v in env.items() if U(v).replace(" ", "") in ("f['shared_params']", 'f["shared_params"]')]
     ctx.check("R1", f"{lf.site()}::reads-attrs-and-datasets:shared", bool(shared_grp) and reader_ok(shared_grp[0]),
               "shared parameters: attributes and whole datasets are both read back into one dict",
@@ -519,7 +559,8 @@ def r3(ctx):
     g = CFG(f.node)
     rets = g.stmts(ast.Return)
     want = N.b(parse_expr(f"({i} > len(self.thetas) - 1) or ({i} < 0)"), integer=True)
-    ok = all(g.guarded_by_raise(r, lambda t, arm: arm == "then" and Norm(strict=False).b(t, integer=True) == want) for r in rets) and \
+    genv = single_defs(f.node)
+    ok = all(g.guarded_by_raise(r, lambda t, arm: arm == "then" and Norm(strict=False).b(inline(t, genv), integer=True) == want) for r in rets) and \
         [U(r.stmt.value) for r in rets] == [f"self.thetas[{i}]"]
     ctx.check("R3", f"{f.site()}::refuses-out-of-range", ok, "raises unless 0 <= index <= len-1, then returns thetas[index]",
               "get_theta does not refuse exactly the indices outside 0..len-1 before indexing (negative indices would wrap around)")
